@@ -5,9 +5,10 @@ import vlib
 
 STAGES = ["core", "mono", "lift", "anf", "go"]
 
-def run_sem(ctx, lines):
+def run_sem(ctx, lines, cap=0):
     p = subprocess.run(["bash", "-c", f"ulimit -s unlimited; exec {vlib.MODEL} sem"], input="\n".join(lines) + "\n",
-                       stdout=subprocess.PIPE, stderr=subprocess.PIPE, text=True, timeout=3000)
+                       stdout=subprocess.PIPE, stderr=subprocess.PIPE, text=True, timeout=3000,
+                       env=dict(os.environ, GV_CAP=str(cap)))
     res = {}
     for l in p.stdout.split("\n"):
         f = l.split("\t")
@@ -44,6 +45,8 @@ def collect(ctx, sub="c01", extra=()):
             d["src"] = vlib.unesc(r[2])
         elif r[1] == "STAGE":
             d["stages"][r[2]] = r[3]
+        elif r[1] == "PPRINT":
+            d["pprint"] = (r[2], vlib.unesc(r[3]) if len(r) > 3 else "")
         elif r[1] == "REJECT":
             d["reject"] = (r[2], r[3] if len(r) > 3 else "")
             d["src"] = vlib.unesc(r[4]) if len(r) > 4 else None
@@ -59,8 +62,13 @@ def evaluate(ctx, progs):
         for st, sx in d["stages"].items():
             lines.append(f"{pid}|{st}\t{sx}")
     res = run_sem(ctx, lines) if lines else {}
+    # where the Go specification leaves the capacity of a grown slice open, Go.Sem takes it as a
+    # parameter: programs that append are run again under a generous growth policy
+    lines2 = [f"{pid}|go\t{d['stages']['go']}" for pid, d in progs.items() if "go" in d["stages"] and "append" in d["stages"]["go"]]
+    res2 = run_sem(ctx, lines2, cap=2) if lines2 else {}
     for pid, d in progs.items():
         d["out"] = {st: res.get(f"{pid}|{st}") for st in d["stages"]}
+        d["go_cap2"] = res2.get(f"{pid}|go")
     return progs
 
 # corpus programs whose recorded .out is not a run of the program (Go's own error text etc.)
@@ -84,6 +92,7 @@ def run(ctx):
     progs = evaluate(ctx, progs)
     gc = gocheck(ctx, [f"{pid}\t{d['stages']['go']}" for pid, d in progs.items() if "go" in d["stages"]])
     n_invalid_go = 0
+    n_pprint = 0
     n_prog = n_agree = n_exp = n_exp_ok = n_fuel = n_extern = 0
     samples, distinct = [], set()
     for pid, d in progs.items():
@@ -97,6 +106,14 @@ def run(ctx):
         if any(v[0] in ("decode-error", "parse-error") for v in o.values()):
             ctx.broken_ties.append(("dump decoder", f"{pid}: {[(k, v[0]) for k, v in o.items() if v[0].endswith('error')]}"))
             continue
+        # printer tie: parse(print(ast)) must be the AST the semantics and the checker were given
+        pp = d.get("pprint")
+        if pp is not None:
+            n_pprint += 1
+            if pp[0] != "ok":
+                ctx.report({"oracle": "go-printer", "kind": pp[0]},
+                           "the printed Go text does not parse back to the Go AST it was printed from",
+                           {"id": pid, "src": d.get("src"), "detail": pp[1][:600]})
         if gc.get(pid, ("ok",))[0] == "err":
             # not valid Go: whether it is accepted is C02's question; it has no Go behaviour to compare
             n_invalid_go += 1
@@ -128,13 +145,23 @@ def run(ctx):
                 kind = "stage-output-not-executable:" + o[div][0][:60]
             ctx.report({"oracle": "stagewise", "first_divergent_stage": div, "kind": kind},
                        f"the {div} stage no longer behaves like the {ref_stage} stage", payload)
+        g2 = d.get("go_cap2")
+        if g2 is not None and (g2[0], g2[1]) != (o["go"][0], o["go"][1]):
+            ctx.report({"oracle": "go-unspecified-behaviour", "kind": "append-shares-backing-array"},
+                       "the emitted Go behaves differently depending on the capacity a grown slice gets (two vec_push on one vector share a backing array)",
+                       dict(payload, go_tight_capacity=vlib.unesc(o["go"][1])[:300], go_generous_capacity=vlib.unesc(g2[1])[:300]))
         # recorded outputs come from real Go: they validate Go.Sem itself and the whole pipeline
         exp = d.get("expect")
         # a recording that is not a run of the program's intended behaviour: the Go compiler's own
         # error text, or Go's bad-verb marker (the defect fixed by the %g commit, see known_findings)
-        if exp is not None and (exp.startswith("# command-line-arguments") or "%!d(" in exp):
+        if exp is not None and exp.startswith("# command-line-arguments"):
             exp = None
             d["expect"] = None
+        if exp is not None and "%!d(float" in exp:
+            # recorded before the %g fix: Go wrapped each float as %!d(float32=3.5); the value inside
+            # is Go's own %v rendering, which is what the fixed helper prints
+            exp = re.sub(r"%!d\(float(?:32|64)=([^)]*)\)", r"\1", exp)
+            d["expect"] = exp
         if d.get("expect") is not None and not ext:
             n_exp += 1
             m = expected_matches(pid, d["expect"], o["go"])
@@ -158,7 +185,7 @@ def run(ctx):
         "rule": "one program = 82-program corpus (74 single-file pipeline programs here) + type-directed generated programs over the feature lattice; every accepted program's real "
                 "Core/Mono/Lift/ANF dumps run under Sem and its real Go AST under Go.Sem; non-trivial = prints something; distinct by stdout and Go size",
         "all_stages_agree": n_agree, "with_recorded_output": n_exp, "recorded_output_reproduced": n_exp_ok,
-        "fuel_exhausted(skipped)": n_fuel, "rejected_by_gocheck(owned by C02)": n_invalid_go, "programs_with_extern_calls(compared up to events)": n_extern,
+        "printed_go_parsed_back_to_ast": n_pprint, "fuel_exhausted(skipped)": n_fuel, "rejected_by_gocheck(owned by C02)": n_invalid_go, "programs_with_extern_calls(compared up to events)": n_extern,
         "generator_rejected": rejected, "compiler_panics_seen(owned by C04)": len(panics),
         "generator_features": feats,
     }
@@ -166,7 +193,7 @@ def run(ctx):
         "Sem (lean/GomlVerif/Model/Sem.lean) is the source-level meaning; Go.Sem (Model/GoSem.lean) is our reading of the Go spec for the emitted subset, validated against the outputs recorded from real Go",
         "`go`: compared under the schedule that runs a spawned activation to completion at the spawn; real goroutine interleavings are outside the model",
         "floats: Go's shortest float formatting is not modelled; programs printing floats are compared only between stages that share the same formatting function",
-        "the goast dump is taken before pretty-printing: go_pprint.rs is not covered here",
+        "go_pprint.rs is tied separately: the printed text of every program is parsed back by harness/src/goparse.rs (Go precedence, composite-literal rule) and must equal the AST with expression type annotations erased",
     ]
     tb = ["Lean 4 (compiled model executable)", "Sem/Go.Sem definitions", "harness/src/dump.rs, godump.rs (IR serialisers)", "tools/props/c01.py"]
     return ctx.finish("translation_validation", cov, tb, "gomlmodel sem (Lean-compiled Sem / Go.Sem on the real stage dumps)")
